@@ -170,7 +170,37 @@ def resown_case(kind):
     return None
 
 
+def other_fn(a, b, c=0, t=None, big=None):
+    return -np.asarray(t, dtype=float), -1
+
+
+def fn_and_farmer_case(reload_):
+    """xyz.Crop(fn=..., farmer=runner): the separate function is ignored (with a warning), the crop is the farmer's crop"""
+    import warnings
+    combos = {"a": [1, 2], "b": [3]}
+    direct = mk_runner().run_combos(combos, verbosity=0)
+    with tmpdir() as d, quiet(), warnings.catch_warnings():
+        warnings.simplefilter("ignore")
+        r = mk_runner()
+        crop = xyz.Crop(fn=other_fn, farmer=r, name="both", parent_dir=d, batchsize=1)
+        crop.sow_combos(combos)
+        if reload_:
+            xyz.Crop(name="both", parent_dir=d).grow_missing()
+            crop = xyz.Crop(name="both", parent_dir=d)
+        else:
+            crop.grow_missing()
+        got = crop.reap()
+        if not same_ds(got, direct):
+            return [f"a crop given both fn= and farmer= reaps\n{got}\nbut the farmer's direct run gives\n{direct}"]
+    return None
+
+
 tried = 0
+for reload_ in (False, True):
+    tried += 1
+    pr = fn_and_farmer_case(reload_)
+    if pr:
+        finish(True, input=dict(farmer="Runner", crop="xyz.Crop(fn=other_fn, farmer=runner)", reload=reload_), observed=pr, tried=tried)
 for kind in ("constants", "function"):
     tried += 1
     pr = resown_case(kind)
